@@ -62,6 +62,10 @@ func zzDefQuery(text string) (*query.Query, error) {
 		return &query.Query{Conditions: query.ConditionsSet{{zzTagCond("", "tag/c")}}}, nil
 	case "tag:a tag:b":
 		return &query.Query{Conditions: query.ConditionsSet{{zzTagCond("", "tag/a"), zzTagCond("", "tag/b")}}}, nil
+	case "cbytes:N:":
+		return &query.Query{Conditions: query.ConditionsSet{{zzNum(query.NumberConditionSummandTypeClientBytes, 1, -zzThreshold)}}}, nil
+	case "sport:80":
+		return &query.Query{Conditions: query.ConditionsSet{{zzNum(sp, 1, -80), zzNum(sp, -1, 80)}}}, nil
 	case "tag:a tag:missing":
 		return &query.Query{Conditions: query.ConditionsSet{{zzTagCond("", "tag/a"), zzTagCond("", "tag/missing")}}}, nil
 	case "tag:missing":
